@@ -146,6 +146,18 @@ def static_obligations():
             r['reproduced'] = False
             r['static'] = dict(klass=k, extra=extra, open_kwargs=open_kw)
             obs.append(r)
+    for k in sorted(asset_classes):
+        p, _ = params(tabs, k)
+        lost = sorted(p & (general | per_type.get(k, set())))
+        name = f'C11.keys.{k}.no_constructor_parameter_dropped'
+        if not lost:
+            obs.append(lemma_record(name, 'DISCHARGED', 'ast', 0.0, function='serialization:json_serialize_objects', case=k))
+        else:
+            r = lemma_record(name, 'REFUTED', 'ast', 0.0, function='serialization:json_serialize_objects', case=k,
+                             note=f'{k}.__init__ takes {lost}, the serialiser drops them: a {k} built with non-default values comes back with the defaults')
+            r['reproduced'] = False
+            r['static'] = dict(klass=k, lost=lost)
+            obs.append(r)
     tp, _ = params(tabs, 'Timegrid')
     ok = bool(({'timezone', 'tz'} & tg_keys) and (tg_keys <= tp))
     r = lemma_record('C11.grid.tz', 'DISCHARGED' if ok else 'REFUTED', 'ast', 0.0,
@@ -175,6 +187,8 @@ def instances(eao, tz):
         'Plant': lambda: eao.assets.Plant(name='pl', nodes=[n1, n3], price='p', min_cap=1., max_cap=3., min_runtime=2, start_costs=1., fuel_efficiency=0.5),
         'CHPAsset': lambda: eao.assets.CHPAsset(name='chp', nodes=[n1, n2, n3], price='p', min_cap=1., max_cap=3., min_runtime=2, start_costs=1., max_share_heat=0.5, fuel_efficiency=0.5),
         'ScaledAsset': lambda: eao.assets.ScaledAsset(name='sa', base_asset=eao.assets.Storage(name='b', nodes=n1, size=3., cap_in=1., cap_out=1.), max_scale=2., fix_costs=0.1),
+        'ScaledAsset_window': lambda: eao.assets.ScaledAsset(name='sw', base_asset=eao.assets.SimpleContract(name='b', nodes=n1, price='p', min_cap=-1., max_cap=1.),
+                                                              max_scale=2., fix_costs=0.3, start=mk(6), end=mk(30)),
     }
     return out, mk
 
@@ -252,7 +266,7 @@ def c11(prop, tier, seed):
     import random
     rng = random.Random(seed)
     zones = [None, 'CET', 'UTC', 'Europe/London']
-    klasses = ['SimpleContract', 'Contract', 'Storage', 'Transport', 'ExtendedTransport', 'MultiCommodityContract', 'OrderBook', 'Plant', 'CHPAsset', 'ScaledAsset']
+    klasses = ['SimpleContract', 'Contract', 'Storage', 'Transport', 'ExtendedTransport', 'MultiCommodityContract', 'OrderBook', 'Plant', 'CHPAsset', 'ScaledAsset', 'ScaledAsset_window']
     cases = [dict(klass=k, tz=tz, after_setup=af) for k in klasses for tz in zones for af in (False, True)]
     rng.shuffle(cases)
     n = 80 if tier == 'thorough' else 28
@@ -265,6 +279,6 @@ def c11(prop, tier, seed):
             first.append(c)
     rest = [c for c in cases if c not in first]
     b1 = run_cases(check_roundtrip, (first + rest)[:n], 'one instance per asset class x zone (naive, CET, UTC, Europe/London) x fresh / after one set-up: save, load, save again, identical problem',
-                   '10 asset classes, 4 zones, 48 h grids', 60 if tier == 'quick' else 400)
+                   '10 asset classes (ScaledAsset also with its own window), 4 zones, 48 h grids', 60 if tier == 'quick' else 400)
     b2 = run_cases(check_codec, [dict(tz=z) for z in zones], 'timestamp / ndarray codecs and the portfolio grid for four zones incl. UTC offset 0 and DST edges', '4 zones', 20)
     return dict(obligations=obs, bounded=_merge(b1, b2))
